@@ -50,9 +50,57 @@ def plan(tier, seed):
             cases.append({"file": e["file"], "fmt": fmt, "explicit": e["explicit"], "seed": seed,
                           "ncut": 80 if tier == "quick" else 400, "nbyte": 15 if tier == "quick" else 50,
                           "nmut": 120 if tier == "quick" else 400})
+    # sectioned formats: EVERY array / section of a file emptied and resized (0, n-1, n+1, 2n, 1 values, header count adjusted), files
+    # chosen greedily so that every section label occurring in the corpus is covered
+    for fmt in ("fchk", "wfx"):
+        todo = None
+        pool = [(e, section_labels(os.path.join(corpus.bootstrap.DATA_DIR, e["file"]))) for e in byfmt.get(fmt, [])]
+        todo = set().union(*[lab for _e, lab in pool]) if pool else set()
+        while todo and pool:
+            e, lab = max(pool, key=lambda x: (len(x[1] & todo), -x[0]["size"]))
+            if not lab & todo:
+                break
+            todo -= lab
+            cases.append({"file": e["file"], "fmt": fmt, "explicit": e["explicit"], "seed": seed, "sections": True,
+                          "ncut": 0, "nbyte": 0, "nmut": 0})
     # the repository's own test-suite as a workload under monitor M9 (vf/mon/pytest_plugin.py)
     cases.append({"kind": "suite", "tier": tier, "timeout": 3300})
     return cases
+
+
+SECTION_HEAD = __import__("re").compile(rb"\s[RI]\s+N=\s*\d+\s*$")
+SECTION_TAG = __import__("re").compile(rb"\s*<[^/!][^>]*>\s*$")
+
+
+def section_labels(path):
+    with open(path, "rb") as fh:
+        lines = fh.read().splitlines()
+    return {ln[:40].strip() for ln in lines if SECTION_HEAD.search(ln + b"\n")} | {ln.strip() for ln in lines if SECTION_TAG.match(ln)}
+
+
+def section_variants(lines):
+    """(label, new_lines): every section of the file with 0, n-1, n+1, 2n and 1 values (its own values cut / repeated)."""
+    import re
+
+    for i, ln in enumerate(lines):
+        head = bool(SECTION_HEAD.search(ln))
+        if not head and not SECTION_TAG.match(ln):
+            continue
+        j = i + 1
+        while j < len(lines) and not (re.search(rb"[A-Za-z]{3}", lines[j]) if head else re.match(rb"\s*<", lines[j])):
+            j += 1
+        toks = b" ".join(lines[i + 1:j]).split()
+        if not toks:
+            continue
+        n = len(toks)
+        per = max(1, len(lines[i + 1].split()))
+        for m in sorted({0, max(n - 1, 1), n + 1, 2 * n, 1} - {n}):
+            vals = [toks[k % n] for k in range(m)]
+            new = list(lines)
+            if head:
+                new[i] = re.sub(rb"N=\s*\d+\s*$", b"N=%12d\n" % m, new[i])
+            new[i + 1:j] = [b" " + b" ".join(vals[k:k + per]) + b"\n" for k in range(0, m, per)]
+            yield f"section:{m - n:+d}@{i}", new
 
 
 def _v(key, msg, **kw):
@@ -282,7 +330,7 @@ def mutations(rng, lines, n):
         return
     for _ in range(n):
         kind = str(rng.choice(["delete", "duplicate", "swap", "subst", "overflow", "count", "delete_block", "blank", "intfield", "intfield",
-                               "empty_section", "empty_section"]))
+                               "empty_section", "empty_section", "resize_section", "resize_section"]))
         new = list(lines)
         i = int(rng.integers(nl))
         if kind == "delete":
@@ -345,6 +393,34 @@ def mutations(rng, lines, n):
                     del new[i + 1:j]
                 else:
                     new[i] = re.sub(rb"\[[^\[\]]+\]", b"[]", new[i], count=1)
+        elif kind == "resize_section":
+            # one array / section given another, internally consistent size (header count and number of values agree) that no
+            # longer fits the rest of the file: n-1, n+1, 2n or 1 values, made by cutting / repeating the section's own values
+            import re
+
+            heads = [k for k in range(nl) if re.search(rb"\s[RI]\s+N=\s*\d+\s*$", new[k])]
+            tags = [k for k in range(nl) if re.match(rb"\s*<[^/!][^>]*>\s*$", new[k])]
+            pools = [p for p in (heads, tags) if p]
+            if pools:
+                pool = pools[int(rng.integers(len(pools)))]
+                i = int(pool[int(rng.integers(len(pool)))])
+                j = i + 1
+                if pool is heads:
+                    while j < len(new) and not re.search(rb"[A-Za-z]{3}", new[j]):
+                        j += 1
+                else:
+                    while j < len(new) and not re.match(rb"\s*<", new[j]):
+                        j += 1
+                toks = b" ".join(new[i + 1:j]).split()
+                if toks:
+                    n = len(toks)
+                    m = int(rng.choice([max(n - 1, 1), n + 1, 2 * n, 1]))
+                    per = max(1, len(new[i + 1].split()))
+                    vals = [toks[k % n] for k in range(m)]
+                    body = [b" " + b" ".join(vals[k:k + per]) + b"\n" for k in range(0, m, per)]
+                    if pool is heads:
+                        new[i] = re.sub(rb"N=\s*\d+\s*$", b"N=%12d\n" % m, new[i])
+                    new[i + 1:j] = body
         elif kind == "count":
             i = int(rng.integers(min(nl, 12)))
             words = new[i].split()
@@ -388,6 +464,9 @@ def run_case(case):
             variants.append((f"cut-byte:{off}", R.raw[:off]))
         for label, new in mutations(rng, lines, case["nmut"]):
             variants.append((f"mut:{label}", b"".join(new)))
+        if case.get("sections"):
+            variants = [(f"mut:{label}", b"".join(new)) for label, new in section_variants(lines)]
+            R.counters["section_variants"] = len(variants)
         variants.append(("empty", b""))
         variants.append(("random-bytes", bytes(rng.integers(0, 256, size=4096, dtype=np.uint8))))
         variants.append(("newlines", b"\n" * 50))
